@@ -232,3 +232,20 @@ Inductive iop :=
 | IStep (z : Z) | IIndex (z : Z)
 | IAtIndex | ISetV
 | IUnknown (src : string).
+
+(* ===== Decorator (decorator-node-generated.go), statement by statement ================= *)
+Inductive nstmt :=
+| NNew (ty : string) | NReturn
+| NMapDst (p : path) | NMapAst (p : path)         (* f.Dst.Nodes[n.P] = out.P ; f.Ast.Nodes[out.P] = n.P *)
+| NSpace (after : bool)
+| NInit (p : path) (ty : string)
+| NNode (p o : path) (k f t asserted : string)    (* if n.P != nil { child, err := f.decorateNode(n, k, f, t, n.P); ...; out.O = child.(asserted) } *)
+| NList (p o : path) (k f t asserted : string)
+| NMapNodes (p : path) (k f t : string)
+| NSet (o : path)                                 (* out.O = <value expression not involving the maps> *)
+| NDecs (points : list string)
+| NErrCheck
+| NSelectorHook
+| NOther (src : string)
+| NWritesInput (src : string)
+| NUnknown (src : string).
